@@ -9,7 +9,8 @@ MANIFEST = dict(
     text=("POINTER LEVEL (Ekit/Props/C01Ptr.lean): internal/tree/red_black_tree.go is translated to a deep embedding on every run "
           "(harness/minigo) and the MiniGo interpreter running that translation is proved to refine the abstract cmp-sorted association list: "
           "for every lawful comparator, every call of Add/Set/Find/Delete that returns gives the abstract map's result and leaves the entries "
-          "read off the heap in in-order sequence equal to the abstract map's (c01_ptr_step_refines, c01_ptr_run_refines); the translated "
+          "read off the heap in in-order sequence equal to the abstract map's (c01_ptr_step_refines, c01_ptr_run_refines), and every history run "
+          "with enough fuel completes and does so (c01_ptr_history_total_refines, Props/C01Total.lean); the translated "
           "program is run against the real tree on every trace (area rbptr). FUNCTIONAL MODEL: "
           "Theorems in Lean 4 (Ekit/Props/C01.lean) about a functional red-black tree that mirrors internal/tree "
           "(descent, insert fix-up, successor splice, delete fix-up with a 'one black short' flag), generic in key/value type and "
